@@ -29,7 +29,7 @@ def build_program(bdir, name, init='pattern'):
     P = PROGRAMS[name]
     d = os.path.join(bdir, name + ('' if init == 'pattern' else '-' + init))
     os.makedirs(d, exist_ok=True)
-    inc = ['-I' + os.path.join(core.REPO, 'include'), '-I' + os.path.join(core.REPO, 'src'), '-I' + os.path.join(core.REPO, 'examples')]
+    inc = [*core.lib_flags(), '-I' + os.path.join(core.REPO, 'examples')]
     san = [s.replace('=pattern', '=' + init) for s in SAN]
     if init == 'none':
         san = [x for x in san if 'trivial-auto-var-init' not in x]      # locals keep whatever the stack held: stale data persists between calls
